@@ -1,8 +1,322 @@
-/- Driver handlers for area `keyring` (stub: replace `handle`). -/
+/- Driver handlers for area `keyring` (C12): keyring.go, keys.go. -/
 import VDriver.Util
+import VModel.KeyRing
 namespace V.Driver.KeyringOps
-open V V.Driver
+open V V.Driver V.KeyRing
 
-def handle (_op : String) (_args : Array String) : Option String := none
+/-! Encodings (see harness/area_keyring.go).  Names, key IDs and keys are hex (`-` = empty).
+    ts       : `a<nat>` absolute ms | `r<int>` relative to the op's `now`
+    request  : `server,ts,strict,listOk,sigs,raw`   sigs: `_` | `|`-separated `keyid:reaches:signer` (signer `x` = none)
+    keymap   : `_` | `;`-separated `server,keyid,key,expired_ts,valid_until_ts`
+    script   : `E` (the call fails) | keymap
+    fetchers : `none` | `/`-separated scripts
+    outcome  : `ok:<bits>|db:<asked>|f<i>:<asked>…|store:<keymap>`  /  `err:db|…`  /  `err:store|…` -/
+
+def parseTs (now : Nat) (s : String) : Option Nat :=
+  if s.startsWith "a" then (s.drop 1).toString.toNat?
+  else if s.startsWith "r" then
+    match (s.drop 1).toString.toInt? with
+    | some d => let v : Int := (now : Int) + d; if v < 0 then none else some v.toNat
+    | none => none
+  else none
+
+def showTs (now : Nat) (v : Nat) : String :=
+  let d : Int := (v : Int) - (now : Int)
+  if d.natAbs < 100000000000 then "r" ++ toString d else "a" ++ toString v
+
+def parseSig (s : String) : Option SigInfo :=
+  match s.splitOn ":" with
+  | [k, r, sg] =>
+    match unhex k with
+    | none => none
+    | some kid =>
+      if sg == "x" then some { keyID := kid, reaches := r == "1", verifies := fun _ => false }
+      else match unhex sg with
+        | some pk => some { keyID := kid, reaches := r == "1", verifies := fun key => key == pk }
+        | none => none
+  | _ => none
+
+def parseL {α} (sep : String) (f : String → Option α) (s : String) : Option (List α) :=
+  if s == "_" then some [] else (s.splitOn sep).mapM f
+
+def parseRequest (now : Nat) (s : String) : Option Request :=
+  match s.splitOn "," with
+  | [srv, ts, strict, lok, sigs, _raw] =>
+    match unhex srv, parseTs now ts, parseL "|" parseSig sigs with
+    | some sv, some t, some sg => some { server := sv, atTS := t, strict := strict == "1", listOk := lok == "1", sigs := sg }
+    | _, _, _ => none
+  | _ => none
+
+def parseEntry (now : Nat) (s : String) : Option (KeyReq × KeyRes) :=
+  match s.splitOn "," with
+  | [srv, kid, key, ex, vu] =>
+    match unhex srv, unhex kid, unhex key, parseTs now ex, parseTs now vu with
+    | some sv, some k, some kb, some e, some v => some (⟨sv, k⟩, { key := kb, expiredTS := e, validUntilTS := v })
+    | _, _, _, _, _ => none
+  | _ => none
+
+def parseScript (now : Nat) (s : String) : Option FetchScript :=
+  if s == "E" then some none else (parseL ";" (parseEntry now) s).map some
+
+def parseFetchers (now : Nat) (s : String) : Option (List FetchScript) :=
+  if s == "none" then some [] else (s.splitOn "/").mapM (parseScript now)
+
+def sortStrings (l : List String) : List String := l.mergeSort (fun a b => !(b < a))
+
+def joinOr (l : List String) : String := if l.isEmpty then "_" else ",".intercalate l
+
+def showReqMap (now : Nat) (m : ReqMap) : String :=
+  joinOr (sortStrings (m.map (fun (q, ts) => hex q.server ++ "/" ++ hex q.keyID ++ "@" ++ showTs now ts)))
+
+def showKeyMap (now : Nat) (m : KeyMap) : String :=
+  joinOr (sortStrings (m.map (fun (q, r) =>
+    hex q.server ++ "/" ++ hex q.keyID ++ "=" ++ hex r.key ++ "." ++ showTs now r.expiredTS ++ "." ++ showTs now r.validUntilTS)))
+
+def showOutcome (now : Nat) (out : Except CallErr (List Bool)) (tr : Trace) : String :=
+  let head := match out with
+    | .ok bits => "ok:" ++ (if bits.isEmpty then "_" else String.ofList (bits.map (fun b => if b then '1' else '0')))
+    | .error .db => "err:db"
+    | .error .store => "err:store"
+  let db := match tr.dbAsked with | none => "none" | some m => showReqMap now m
+  let fs := tr.fetcherCalls.map (fun (i, m) => "|f" ++ toString i ++ ":" ++ showReqMap now m)
+  let st := match tr.stored with | none => "none" | some m => showKeyMap now m
+  head ++ "|db:" ++ db ++ String.join fs ++ "|store:" ++ st
+
+/-! parsing the implementation's outcome back (for the specification's judgement) -/
+
+def parseAsked (now : Nat) (s : String) : Option ReqMap :=
+  parseL "," (fun e =>
+    match e.splitOn "@" with
+    | [qk, ts] =>
+      match qk.splitOn "/", parseTs now ts with
+      | [sv, k], some t =>
+        match unhex sv, unhex k with
+        | some a, some b => some (⟨a, b⟩, t)
+        | _, _ => none
+      | _, _ => none
+    | _ => none) s
+
+def parseStored (now : Nat) (s : String) : Option KeyMap :=
+  parseL "," (fun e =>
+    match e.splitOn "=" with
+    | [qk, rv] =>
+      match qk.splitOn "/", rv.splitOn "." with
+      | [sv, k], [key, ex, vu] =>
+        match unhex sv, unhex k, unhex key, parseTs now ex, parseTs now vu with
+        | some a, some b, some kb, some e', some v => some (⟨a, b⟩, { key := kb, expiredTS := e', validUntilTS := v })
+        | _, _, _, _, _ => none
+      | _, _ => none
+    | _ => none) s
+
+def parseOutcome (now : Nat) (s : String) : Option (Except CallErr (List Bool) × Trace) :=
+  match s.splitOn "|" with
+  | head :: rest =>
+    let out : Option (Except CallErr (List Bool)) :=
+      if head == "err:db" then some (.error .db)
+      else if head == "err:store" then some (.error .store)
+      else if head.startsWith "ok:" then
+        let b := (head.drop 3).toString
+        if b == "_" then some (.ok []) else
+        if b.toList.all (fun c => c == '0' || c == '1') then some (.ok (b.toList.map (· == '1'))) else none
+      else none
+    match out with
+    | none => none
+    | some o =>
+      let step (acc : Option Trace) (part : String) : Option Trace :=
+        match acc with
+        | none => none
+        | some tr =>
+          if part.startsWith "db:" then
+            let v := (part.drop 3).toString
+            if v == "none" then some tr else (parseAsked now v).map (fun m => { tr with dbAsked := some m })
+          else if part.startsWith "store:" then
+            let v := (part.drop 6).toString
+            if v == "none" then some tr else (parseStored now v).map (fun m => { tr with stored := some m })
+          else if part.startsWith "f" then
+            match (part.drop 1).toString.splitOn ":" with
+            | [i, v] =>
+              match i.toNat?, parseAsked now v with
+              | some n, some m => some { tr with fetcherCalls := tr.fetcherCalls ++ [(n, m)] }
+              | _, _ => none
+            | _ => none
+          else none
+      (rest.foldl step (some {})).map (fun tr => (o, tr))
+  | [] => none
+
+def bstr (b : Bool) : String := if b then "1" else "0"
+
+def parseVerifyKey (s : String) : Option VerifyKeyEntry :=
+  match s.splitOn ":" with
+  | [k, key, ss] =>
+    match unhex k, unhex key with
+    | some a, some b => some { keyID := a, key := b, selfSigned := ss == "1" }
+    | _, _ => none
+  | _ => none
+
+def parseOldKey (now : Nat) (s : String) : Option OldKeyEntry :=
+  match s.splitOn ":" with
+  | [k, key, ex] =>
+    match unhex k, unhex key, parseTs now ex with
+    | some a, some b, some e => some { keyID := a, key := b, expiredTS := e }
+    | _, _, _ => none
+  | _ => none
+
+/-- server keys: `name,valid_until,verify_keys,old_verify_keys` with `|`-separated entries -/
+def parseServerKeys (now : Nat) (name vu vks oks : String) : Option ServerKeys :=
+  match unhex name, parseTs now vu, parseL "|" parseVerifyKey vks, parseL "|" (parseOldKey now) oks with
+  | some n, some v, some a, some b => some { serverName := n, validUntilTS := v, verifyKeys := a, oldVerifyKeys := b }
+  | _, _, _, _ => none
+
+def showChecks (c : KeyChecks) (ks : Option (List (Bytes × Bytes))) : String :=
+  let per := joinOr (sortStrings (c.ed25519Checks.map (fun e => hex e.keyID ++ ":" ++ bstr e.validEd25519 ++ bstr e.matchingSignature)))
+  let all := match c.allEd25519ChecksOK with | none => "n" | some b => bstr b
+  let keys := match ks with
+    | none => "nil"
+    | some l => joinOr (sortStrings (l.map (fun (k, v) => hex k ++ "=" ++ hex v)))
+  "ok:" ++ bstr c.allChecksOK ++ bstr c.matchingServerName ++ bstr c.futureValidUntilTS ++ bstr c.hasEd25519Key ++ all ++ "|" ++ per ++ "|" ++ keys
+
+/-- the property's clause for key responses, written out: accepted only if the name matches, valid_until_ts
+    is in the future, there is an ed25519 key, and every ed25519 key is 32 bytes and signed the response -/
+def specAllOK (name : Bytes) (now : Nat) (k : ServerKeys) : Bool :=
+  let eds := k.verifyKeys.filter (fun e => e.keyID.takeWhile (· ≠ 58) == ed25519Name)
+  name == k.serverName && decide (now < k.validUntilTS) && !eds.isEmpty && eds.all (fun e => e.key.length == 32 && e.selfSigned)
+
+def parseNotarySig (s : String) : Option NotarySig :=
+  match s.splitOn ":" with
+  | [k, kn, ok] => (unhex k).map (fun kid => { keyID := kid, known := kn == "1", sigOk := ok == "1" })
+  | _ => none
+
+/-- one response `parsed,name,vu,vks,oks,nsigs,raw` -/
+def parseResponse (now : Nat) (s : String) : Option (Option NotaryResponse) :=
+  match s.splitOn "," with
+  | [parsed, name, vu, vks, oks, ns, _raw] =>
+    if parsed == "0" then some none else
+    match parseServerKeys now name vu vks oks, parseL "|" parseNotarySig ns with
+    | some sk, some sigs => some (some { keys := sk, listOk := true, notarySigs := sigs })
+    | _, _ => none
+  | _ => none
+
+/-- `E` (the client call fails) | `_` | `~`-separated responses; an undecodable response makes the client fail -/
+def parseResponses (now : Nat) (s : String) : Option (Option (List NotaryResponse)) :=
+  if s == "E" then some none
+  else if s == "_" then some (some [])
+  else match (s.splitOn "~").mapM (parseResponse now) with
+    | none => none
+    | some l => if l.all Option.isSome then some (some (l.filterMap id)) else some none
+
+/-- comparisons against the wall clock are judged with this margin (ms) -/
+def clockMargin : Nat := 600000
+
+/-- the property's clause for a key response obtained by a fetcher at wall-clock `now`: `none` when
+    valid_until_ts is too close to `now` to be judged -/
+def specAccepts (name : Bytes) (now : Nat) (k : ServerKeys) : Option Bool :=
+  if now < k.validUntilTS + clockMargin && k.validUntilTS < now + clockMargin then
+    (if specAllOK name (k.validUntilTS - 1) k then none else some false)
+  else some (specAllOK name now k)
+
+def handle (op : String) (args : Array String) : Option String :=
+  match op, args.toList with
+  | "verify_jsons", [n, reqs, db, storeOk, fetchers, impl] =>
+    match n.toNat? with
+    | none => some "bad-op"
+    | some now =>
+      match parseL ";" (parseRequest now) reqs, parseScript now db, parseFetchers now fetchers with
+      | some rs, some dbs, some fs =>
+        let (out, tr) := verifyJSONs rs dbs (storeOk == "1") fs now
+        let m := showOutcome now out tr
+        let sp := match parseOutcome now impl with
+          | none => if impl.startsWith "panic:" then "no-panic" else "unspecified:unparsable-outcome"
+          | some (io, itr) =>
+            match Spec.judge rs dbs (storeOk == "1") fs now io itr with
+            | none => impl
+            | some (true, why) => "unspecified:" ++ why
+            | some (false, why) => "demand:" ++ why
+        some (m ++ "\t" ++ sp)
+      | _, _, _ => some "bad-op"
+  | "was_valid_at", [n, ex, vu, at', strict] =>
+    match n.toNat? with
+    | none => some "bad-op"
+    | some now =>
+      match parseTs now ex, parseTs now vu, parseTs now at' with
+      | some e, some v, some t =>
+        let k : KeyRes := { key := [], expiredTS := e, validUntilTS := v }
+        some (bstr (wasValidAt k t (strict == "1") now) ++ "\t" ++ bstr (Spec.validAt k t (strict == "1") now))
+      | _, _, _ => some "bad-op"
+  | "check_keys", [n, reqName, parsed, name, vu, vks, oks, _raw] =>
+    match n.toNat? with
+    | none => some "bad-op"
+    | some now =>
+      if parsed == "0" then some "err:json\terr:json" else
+      match unhex reqName, parseServerKeys now name vu vks oks with
+      | some rn, some sk =>
+        let (c, ks) := checkKeys rn now sk
+        let m := showChecks c ks
+        -- spec: the AllChecksOK bit is what the property speaks about; the rest is compared with the model
+        let sp := if c.allChecksOK == specAllOK rn now sk then m else "demand:AllChecksOK=" ++ bstr (specAllOK rn now sk)
+        some (m ++ "\t" ++ sp)
+      | _, _ => some "bad-op"
+  | "public_key", [n, name, vu, vks, oks, kid, at', _raw] =>
+    match n.toNat? with
+    | none => some "bad-op"
+    | some now =>
+      match parseServerKeys now name vu vks oks, unhex kid, parseTs now at' with
+      | some sk, some k, some t =>
+        some (match publicKey sk k t with
+          | some key => if key.isEmpty then "none" else "ok:" ++ hex key
+          | none => "none")
+      | _, _, _ => some "bad-op"
+  | "direct_fetch", [n, reqName, direct, notary, _impl] =>
+    match n.toNat?, unhex reqName with
+    | some now, some rn =>
+      match parseResponses now direct, parseResponses now notary with
+      | some d, some nl =>
+        let dk : Option ServerKeys := match d with
+          | some [r] => some r.keys
+          | _ => none
+        let nk : Option (List ServerKeys) := nl.map (fun l => l.map NotaryResponse.keys)
+        let out := "ok:" ++ showKeyMap now (directFetch rn dk nk)
+        -- specification: the direct answer if the property accepts it, else the first notary answer naming the
+        -- server if the property accepts that, else nothing
+        let mapped (k : ServerKeys) := "ok:" ++ showKeyMap now (mapServerKeys k [])
+        let viaNotary : String := match nk with
+          | none => "ok:_"
+          | some l => match l.find? (fun k => k.serverName == rn) with
+            | none => "ok:_"
+            | some k => match specAccepts rn now k with
+              | none => "unspecified:valid_until_ts within the clock margin"
+              | some true => mapped k
+              | some false => "ok:_"
+        let sp := match dk with
+          | none => viaNotary
+          | some k => match specAccepts rn now k with
+            | none => "unspecified:valid_until_ts within the clock margin"
+            | some true => mapped k
+            | some false => viaNotary
+        some (out ++ "\t" ++ sp)
+      | _, _ => some "bad-op"
+    | _, _ => some "bad-op"
+  | "perspective_fetch", [n, _notaryName, _known, resps, _impl] =>
+    match n.toNat? with
+    | none => some "bad-op"
+    | some now =>
+      match parseResponses now resps with
+      | none => some "bad-op"
+      | some rl =>
+        let out := match perspectiveFetch rl with
+          | none => "err:fetch"
+          | some m => "ok:" ++ showKeyMap now m
+        -- specification: every response signed by the notary under a configured key and acceptable for the
+        -- server it names, else the fetch fails
+        let sp := match rl with
+          | none => "err:fetch"
+          | some l =>
+            let verdicts := l.map (fun r =>
+              if !(r.listOk && r.notarySigs.any (fun s => s.known && s.sigOk)) then some false
+              else specAccepts r.keys.serverName now r.keys)
+            if verdicts.any (· == some false) then "err:fetch"
+            else if verdicts.any (· == none) then "unspecified:valid_until_ts within the clock margin"
+            else "ok:" ++ showKeyMap now (l.foldl (fun acc r => mapServerKeys r.keys acc) [])
+        some (out ++ "\t" ++ sp)
+  | _, _ => none
 
 end V.Driver.KeyringOps
